@@ -13,7 +13,7 @@ import (
 )
 
 func c08Lists(lvl int) []string {
-	I := []string{"0", "1", "2", "3", "10", "65535", "65536", "65537", "131072", "4294967296", "4294967297", "99999999999999999", "a", "alpha", "beta", "rc", "A", "Alpha", "a-b", "1-2", "2-3", "-5", "-", "x-", "0a", "00a", "x"}
+	I := []string{"0", "1", "2", "3", "10", "65535", "65536", "65537", "131072", "4294967296", "4294967297", "99999999999999999", "a", "alpha", "beta", "rc", "A", "Alpha", "a-b", "1-2", "2-3", "-5", "-", "x-", "0a", "00a", "1a", "x"}
 	var out []string
 	out = append(out, "")
 	for _, a := range I {
